@@ -113,7 +113,8 @@ class C10(HistoryCheck):
             role = world.role_of(inst)
             anys = [n for n, a in world.info(role).items() if a["kind"] == "any"]
             if anys:
-                v = s.choice(SPECIAL_VALUES + [["selfref", "direct"], ["selfref", "list"], ["selfref", "klist"], ["selfref", "dict"]])
+                v = s.choice(SPECIAL_VALUES + [["selfref", "direct"], ["selfref", "list"], ["selfref", "klist"], ["selfref", "dict"],
+                                               ["ownmeth", "self"], ["ownmeth", "twin"]])
                 return {"op": "set", "on": {"i": iid}, "a": s.choice(anys), "v": v, "id": world.fresh_id()}
         if world.insts and s.chance(0.08):
             # nested keyed item loses its key attribute (legal: `del item.k`); the parent's repr must cope
@@ -156,6 +157,14 @@ class C10(HistoryCheck):
                     tgt.__dict__.pop(op["a"], None)
             ctx.log(op["id"], "selfref")
             return None
+        elif op["op"] == "set" and isinstance(op.get("v"), list) and op["v"] and op["v"][0] == "ownmeth":
+            # a method of the class itself as attribute value (a callback slot filled with one of the instance's own
+            # methods): bound to the holder, or to a separate instance that is equal to the holder right now
+            tgt = world.resolve(op["on"])
+            owner = tgt if op["v"][1] == "self" else copy.deepcopy(tgt)
+            setattr(tgt, op["a"], owner.update)
+            ctx.log(op["id"], "ownmeth", op["v"][1], state_digest(world))
+            out, X, R = None, tgt, None
         else:
             prep = world.prepare(op)
             out = world.run(prep)
